@@ -78,5 +78,6 @@ def load_config_file(
     extra_paths: list[Path] | None = None,
 ) -> tuple[Config, Path | None]:
     if (path := search_config(filename, extra_paths)) is not None:
-        return Config(tomllib.loads(path.read_text())), path
+        # TOML documents are UTF-8 by definition, whatever the locale says.
+        return Config(tomllib.loads(path.read_text(encoding="utf-8"))), path
     return Config(), None
